@@ -130,6 +130,15 @@ func (s *Schema) manifest(flatten bool) ([]byte, error) {
 			for _, p := range m.Params {
 				params = append(params, fieldJSON(p))
 			}
+			if flatten && m.Paging {
+				// the root generator has no isPagingSupported flag: its front end lists the paging parameters as fields
+				// included from restlidata.PagingContext
+				for _, pn := range []string{"start", "count"} {
+					pj := fieldJSON(Field{Name: pn, Type: P("int32"), Optional: true})
+					pj["includedFrom"] = map[string]any{"name": "PagingContext", "namespace": "github.com/PapaCharlie/go-restli/restlidata"}
+					params = append(params, pj)
+				}
+			}
 			mm := map[string]any{"methodType": m.Kind, "name": m.Name, "doc": "", "onEntity": m.OnEntity, "params": params,
 				"isPagingSupported": m.Paging, "return": nil, "metadata": nil, "returnEntity": m.ReturnEntity}
 			if m.Return != nil {
@@ -163,7 +172,16 @@ func orEmpty(s []string) []string {
 // ---------------------------------------------------------------------------------------------
 // registry: lets everything else be generic and reflection-driven
 
-func (s *Schema) RegistrySource(pkgName string) string {
+func (s *Schema) RegistrySource(pkgName string) string { return s.registrySource(pkgName, false) }
+
+// RegistrySourceRootFull is RegistrySource for bindings written by the root-module generator (resources included).
+func (s *Schema) RegistrySourceRootFull(pkgName string) string { return s.registrySource(pkgName, true) }
+
+func (s *Schema) registrySource(pkgName string, rootGen bool) string {
+	mod := "github.com/PapaCharlie/go-restli/v2"
+	if rootGen {
+		mod = "github.com/PapaCharlie/go-restli"
+	}
 	var b strings.Builder
 	imports := map[string]string{} // path -> alias
 	alias := func(path string) string {
@@ -212,7 +230,7 @@ func (s *Schema) RegistrySource(pkgName string) string {
 			r.Namespace, pa, ta, pa, ta, ro, cro)
 	}
 	body.WriteString("}\n")
-	fmt.Fprintf(&b, "// Code generated by the verif corpus emitter; DO NOT EDIT.\n\npackage %s\n\nimport (\n\t\"reflect\"\n\n\t\"github.com/PapaCharlie/go-restli/v2/restli\"\n\t\"github.com/PapaCharlie/go-restli/v2/restlicodec\"\n", pkgName)
+	fmt.Fprintf(&b, "// Code generated by the verif corpus emitter; DO NOT EDIT.\n\npackage %s\n\nimport (\n\t\"reflect\"\n\n\t\"%s/restli\"\n\t\"%s/restlicodec\"\n", pkgName, mod, mod)
 	var paths []string
 	for p := range imports {
 		paths = append(paths, p)
@@ -276,8 +294,7 @@ func (s *Schema) WriteSetRoot(dir string) error {
 	if err := os.MkdirAll(filepath.Join(dir, "reg"), 0o755); err != nil {
 		return err
 	}
-	typesOnly := *s
-	typesOnly.Resources = nil
+	typesOnly := *s // (historical name: resources are kept since the rig has a root-module variant)
 	m, err := typesOnly.ManifestRoot()
 	if err != nil {
 		return err
@@ -286,7 +303,7 @@ func (s *Schema) WriteSetRoot(dir string) error {
 		return err
 	}
 	sj, _ := json.MarshalIndent(&typesOnly, "", " ")
-	src := typesOnly.RegistrySourceRoot("reg") + "\nconst SchemaJSON = " + fmt.Sprintf("%q", string(sj)) + "\n"
+	src := typesOnly.RegistrySourceRootFull("reg") + "\nconst SchemaJSON = " + fmt.Sprintf("%q", string(sj)) + "\n"
 	return os.WriteFile(filepath.Join(dir, "reg", "registry.go"), []byte(src), 0o644)
 }
 
